@@ -114,7 +114,14 @@ def run_shift(case):
     else:
         a_in = path
     b_in = a_in + shift
-    ta, tb = _traj(case, a_in), _traj(case, b_in)
+    if form == 'displacements':
+        # the documented alternative input: per-frame displacements + base positions (what apply_drift_correction builds);
+        # the second trajectory starts from a lattice-shifted base
+        steps = np.concatenate([np.zeros_like(path[:1]), np.diff(path, axis=0)], axis=0)
+        ta = cases.trajectory(steps, case['symbols'], M, case['time_step'], case['temperature'], case['species_kind'], coords_are_displacement=True, base_positions=path[0] - np.floor(path[0]))
+        tb = cases.trajectory(steps, case['symbols'], M, case['time_step'], case['temperature'], case['species_kind'], coords_are_displacement=True, base_positions=path[0] + shift[0])
+    else:
+        ta, tb = _traj(case, a_in), _traj(case, b_in)
     dims = case.get('dimensions', 3)
 
     def bundle(t):
@@ -195,7 +202,7 @@ def shift_cases(draw, tier):
     else:
         shift = np.zeros(shape, int).tolist()
     c['shift'] = shift
-    c['form'] = draw(st.sampled_from(['wrapped', 'unwrapped']))
+    c['form'] = draw(st.sampled_from(['wrapped', 'unwrapped', 'displacements']))
     c['dimensions'] = draw(st.sampled_from([1, 2, 3]))
     return c
 
